@@ -556,13 +556,15 @@ def run_c18_instr(ctx):
                 cases.append({"id": "stateswitch-%03d" % k, "pre": s, "acts": [{"a": "step"}]}); k += 1
     cases += same_graph_cases()
     # a graph of several thousand nodes: the queries answer with ALL the model's nodes, however many
-    for k, n in enumerate((6001,) if q else (4999, 5001, 6001, 20000)):
+    for k, n in enumerate((5003,) if q else (4999, 5003, 6001)):
         G = {"nodes": [{"id": j, "st": 1 + (j % 2)} for j in range(1, n + 1)], "edges": [{"d": 1, "in": [{"o": j, "w": F["h"]} for j in range(2, n + 1, 2)]}]}
-        for name, ints in (("GRAPH.NODES", [1]), ("GRAPH.NODES", [2]), ("GRAPH.NODE*PREDECESSORS", [1, 2, 1]), ("GRAPH.NODE*PREDECESSORS", [1]), ("GRAPH.NODE*NEIGHBORS", [1, 2, 1]), ("GRAPH.STACKDEPTH", [])):
+        # (the queries take the wanted states as an INTVECTOR, the adjacency queries the node id as an INTEGER)
+        # (only the node queries: the specification's adjacency queries are quadratic in the in-degree, minutes per event at this size)
+        for name, states in (("GRAPH.NODES", [1, 2]),) if q else (("GRAPH.NODES", [1]), ("GRAPH.NODES", [1, 2]), ("GRAPH.NODES", [])):
             s = gen.empty_state()
-            s["nid"] = n + 1; s["graph"] = [G]; s["int"] = ints + [1, 2, 1]
+            s["nid"] = n + 1; s["graph"] = [G]; s["int"] = [1, 2]; s["ivec"] = [states, [7]]
             s["exec"] = [ins(name)]
-            cases.append({"id": "biggraph-%d-%s-%d" % (n, name, len(ints)), "pre": s, "acts": [{"a": "step"}]})
+            cases.append({"id": "biggraph-%d-%s-%d" % (n, name, len(states)), "pre": s, "acts": [{"a": "step"}]})
     run_events(ctx, "graph_sequences", cases)
 
 
@@ -1438,6 +1440,13 @@ def run_c13(ctx):
             s["cfg"]["min_f"], s["cfg"]["max_f"] = g.r.choice([(fb(16777216.0), fb(16777218.0)), (fb(1.0), fb(1.0000001192092896)), (fb(-2.0), fb(-1.9999998)),
                                                                (fb(-3.4028234663852886e38), fb(3.4028234663852886e38)), (fb(float("-inf")), fb(2.0)), (fb(-3e38), fb(float("inf")))])
         cs.append({"id": "randins-%05d" % i, "pre": s, "acts": [{"a": "step"}]})
+    for k, bound in enumerate(({"INTEGER.+": {"k": "int", "v": 4}}, {"NOOP": {"k": "int", "v": 5}, "VERIF.PROBE": {"k": "int", "v": 6}, "CODE.DUP": {"k": "bool", "v": True}},
+                              {"x y": {"k": "int", "v": 1}}, {"": {"k": "int", "v": 1}}, {"INTEGER.+": {"k": "int", "v": 4}, "plain": {"k": "int", "v": 1}})):
+        for j in range(3 if q else 40):
+            s = gen.empty_state()
+            s["bind"] = bound; s["name"] = ["waiting"]
+            s["exec"] = [ins("NAME.RANDBOUNDNAME")]
+            cs.append({"id": "boundnames-%d-%d" % (k, j), "pre": s, "acts": [{"a": "step"}]})
     for k, name in enumerate(RAND):          # draws accumulate: the thousand-and-first result is as good as the first
         s = gen.empty_state()
         s["bvec"] = [[True]] * 1000; s["ivec"] = [[1]] * 1000; s["fvec"] = [[fb(1.0)]] * 1000
